@@ -18,7 +18,8 @@ EXPLANATION = (
     "delete and repeats while something was deleted; Workflow.delete_detached prunes unused static-tree files first; "
     "File/Step.before_delete and revert_optional_steps queue the directories; the optional-revert filter is a truth "
     "table. Decides the shape of the deletion loop and its ordering, NOT completeness of the deletion fixed point "
-    "for arbitrary detached subgraphs (creator/dependency cycles are documented survivors)."
+    "for arbitrary detached subgraphs (creator/dependency cycles are documented survivors). "
+    'Also: the directory pruning worklist examines every popped entry (no skip), and File.initialize_row keeps a former output known as an output until cleanup has decided about it.'
 )
 ASSUMPTIONS = ["completeness for every detached subgraph shape is a run-time property and is not claimed"]
 
